@@ -5,6 +5,7 @@ import Sudachi.Proofs.NumericDenote
 import Sudachi.Proofs.NumericClear
 import Sudachi.Proofs.RewriteNumericRun
 import Sudachi.Proofs.RewriteNumericTrace
+import Sudachi.Proofs.RewriteNumericSplit
 /-!
 # C15 — joined numerals are normalised to their decimal value
 
@@ -769,5 +770,99 @@ example : wcfg.enableNormalize = true ∧ ({ wcfg with enableNormalize := false 
     joinNumeral .repaired .fix wcfg [256] (wpath ["十"]) =
       .ok [mergedNode (tk 0 "十" 1) (tk 0 "十" 1) (wpath ["十"]) (some "10".toList)] := by
   refine ⟨rfl, rfl, by decide, by decide, by decide⟩
+
+/-! ## the joined numeral and the split stage (modes A and B, `split_into`)
+
+`split_path` runs AFTER the path-rewrite plugins and `Morpheme::split_into` splits a morpheme of the
+mode-C result on demand; both read the split lists the node carries (`Model/RewriteNumericSplit.lean`:
+`toSplit`, then C09's `Split.splitPath` / `Split.splitInto`).  The node `concat_nodes` builds has none. -/
+
+open RewriteNumericSplit in
+/-- **C15 and the split modes.**  The token the joiner makes of a numeral run when it REBUILDS it
+(`enableNormalize` and: more than one node, or a single node whose form is not yet `canon v a` — a
+numeral that is ONE dictionary word such as `百万` included) carries no split units, for EVERY
+dictionary (`cx.lex` arbitrary: numeral words may declare any units), every offset table, every mode:
+
+* its stored normalised form is `canon v a`;
+* `split_path` returns it unchanged inside any path (the sides are split on their own) — on C09's nodes
+  and on the tokens C15 observes;
+* `split_into` reports that nothing was split, the harness reads the token itself. -/
+theorem joined_numeral_survives_split_modes (cfg : NCfg) (v : Variant) (f : Rewrite.Node) (R : List Rewrite.Node)
+    (a : Numeral) (hen : cfg.enableNormalize = true) (hre : R ≠ [] ∨ canon v a ≠ normForm f)
+    (cx : Split.Ctx) (norms : List (List Char)) (m : Split.Mode) :
+    let t := numeralTok cfg v f R a
+    t.aSplit = [] ∧ t.bSplit = [] ∧ t.norm = canon v a ∧
+    Split.splitPath cx m [toSplit t] = .ok [toSplit t] ∧
+    (∀ A A' B B', Split.splitPathGo cx m A = .ok A' → Split.splitPathGo cx m B = .ok B' →
+      Split.splitPathGo cx m (A ++ toSplit t :: B) = .ok (A' ++ toSplit t :: B')) ∧
+    (∀ P tp Q tq, splitToks cx norms m P = .ok tp → splitToks cx norms m Q = .ok tq →
+      splitToks cx norms m (P ++ t :: Q) = .ok (tp ++ keepTok t :: tq)) ∧
+    Split.splitInto cx m (toSplit t) = .ok (false, []) ∧
+    splitIntoTok cx norms m t = .ok [keepTok t] := by
+  intro t
+  have ht : t = mergedNode f (lastOf f R) (f :: R) (some (canon v a)) := by
+    show numeralTok cfg v f R a = _
+    unfold numeralTok
+    rw [if_pos hen, if_pos hre]
+  have hA : t.aSplit = [] := by rw [ht]; rfl
+  have hB : t.bSplit = [] := by rw [ht]; rfl
+  have hns : Split.numSplits (toSplit t) m = 0 := by
+    cases m <;> simp [Split.numSplits, Split.splitsOf, toSplit, hA, hB]
+  have hle : Split.numSplits (toSplit t) m ≤ 1 := by rw [hns]; exact Nat.zero_le 1
+  have hsi : Split.splitInto cx m (toSplit t) = .ok (false, []) := by simp [Split.splitInto, hns]
+  refine ⟨hA, hB, by rw [ht]; rfl, ?_, ?_, ?_, hsi, ?_⟩
+  · unfold Split.splitPath
+    split
+    · rfl
+    · exact RewriteNumericSplit.splitPathGo_keeps cx m (toSplit t) hle [] [] rfl [] [] rfl
+  · intro A A' B B' h1 h2
+    exact RewriteNumericSplit.splitPathGo_keeps cx m (toSplit t) hle B B' h2 A A' h1
+  · intro P tp Q tq h1 h2
+    exact RewriteNumericSplit.splitToks_keeps cx norms m t (.inr hle) Q tq h2 P tp h1
+  · simp [splitIntoTok, hsi]
+
+/-- the numeral word `百万` as ONE dictionary word (word 2, units 百 = word 0 and 万 = word 1 in modes A and B) -/
+def wHyakuman : Rewrite.Node :=
+  { b := 0, e := 2, bb := 0, eb := 6, wid := 2, tc := 0, left := 0, right := 0, cost := 0, pos := 1, hwl := 6, dfw := -1,
+    aSplit := [0, 1], bSplit := [0, 1], wStruct := [0, 1], syn := [], surface := "百万".toList, norm := [],
+    reading := [], dform := [] }
+/-- the numeral word `10` as ONE dictionary word (word 2, units `1` = word 0 and `0` = word 1) -/
+def wTen : Rewrite.Node :=
+  { wHyakuman with eb := 2, hwl := 2, surface := "10".toList }
+/-- the lexicons of the two witnesses and the offset tables of the two texts -/
+def cxHyakuman : Split.Ctx := ⟨.cur, [[⟨3, [], []⟩, ⟨3, [], []⟩, ⟨6, [0, 1], [0, 1]⟩]], Split.Subset.all, [0, 0, 0, 1, 1, 1, 2], [0, 3, 6]⟩
+def cxTen : Split.Ctx := ⟨.cur, [[⟨1, [], []⟩, ⟨1, [], []⟩, ⟨2, [0, 1], [0, 1]⟩]], Split.Subset.all, [0, 1, 2], [0, 1, 2]⟩
+
+open RewriteNumericSplit in
+/-- non-vacuity of `joined_numeral_survives_split_modes` on the code path the seeded change edits: the
+single node `百万` (stored form `百万` ≠ `1000000`) is rebuilt, and the rebuilt token is one token with the
+form `1000000` in modes C, A, B and under `split_into` — although the dictionary word declares 百/万 -/
+example :
+    joinNumeral .repaired .fix wcfg [256, 256] [wHyakuman] =
+      .ok [mergedNode wHyakuman wHyakuman [wHyakuman] (some "1000000".toList)] ∧
+    (∀ m, splitToks cxHyakuman ["百".toList, "万".toList, "百万".toList] m
+        [mergedNode wHyakuman wHyakuman [wHyakuman] (some "1000000".toList)] = .ok [⟨0, 2, "1000000".toList⟩]) ∧
+    (∀ m, splitIntoToks cxHyakuman ["百".toList, "万".toList, "百万".toList] m
+        [mergedNode wHyakuman wHyakuman [wHyakuman] (some "1000000".toList)] = .ok [⟨0, 2, "1000000".toList⟩]) ∧
+    -- what the split stage would do with the dictionary node itself (kept by the seeded fast path)
+    splitToks cxHyakuman ["百".toList, "万".toList, "百万".toList] .A [wHyakuman] =
+      .ok [⟨0, 1, "百".toList⟩, ⟨1, 2, "万".toList⟩] := by
+  refine ⟨by decide, ?_, ?_, by decide⟩
+  · intro m; cases m <;> decide
+  · intro m; cases m <;> decide
+
+open RewriteNumericSplit in
+/-- **the hypothesis `R ≠ [] ∨ canon v a ≠ normForm f` cannot be dropped — the unchanged code violates the
+property there.**  A numeral that is ONE dictionary word with split units whose stored form ALREADY is the
+decimal rendering (`10`, units `1`/`0`): `concat` skips the rebuild (`end - begin > 1 || normalized_form !=
+word_info.normalized_form()`), the dictionary node keeps its split lists, and modes A and B and
+`split_into` take the numeral apart: two tokens `1`, `0` instead of one token `10` (mode C: one token). -/
+theorem kept_numeral_word_is_split_counterexample :
+    joinNumeral .repaired .fix wcfg [16, 16] [wTen] = .ok [wTen] ∧
+    splitToks cxTen ["1".toList, "0".toList, "10".toList] .C [wTen] = .ok [⟨0, 2, "10".toList⟩] ∧
+    splitToks cxTen ["1".toList, "0".toList, "10".toList] .A [wTen] = .ok [⟨0, 1, "1".toList⟩, ⟨1, 2, "0".toList⟩] ∧
+    splitToks cxTen ["1".toList, "0".toList, "10".toList] .B [wTen] = .ok [⟨0, 1, "1".toList⟩, ⟨1, 2, "0".toList⟩] ∧
+    splitIntoToks cxTen ["1".toList, "0".toList, "10".toList] .A [wTen] = .ok [⟨0, 1, "1".toList⟩, ⟨1, 2, "0".toList⟩] := by
+  refine ⟨by decide, by decide, by decide, by decide, by decide⟩
 
 end C15
